@@ -194,13 +194,13 @@ func c07r2(w *World, rr *RuleRun) {
 		recv := w.TS.Of(callInstrCommon(s).Args[0])
 		rr.At(w, s, "the reply is delivered to the transaction that was popped for its key", isCall(recv, pop), "receiver "+trunc(recv.String(), 160))
 		msg := w.TS.Of(callInstrCommon(s).Args[1])
-		rr.At(w, s, "the delivered message is the datagram just decoded", within(s.Parent(), pp) && msg.Op == OpDeref && msg.Args[0].Op == OpLocal, "message "+trunc(msg.String(), 100))
+		rr.At(w, s, "the delivered message is the datagram just decoded", w.withinUp(s.Parent(), pp) && msg.Op == OpDeref && msg.Args[0].Op == OpLocal, "message "+trunc(msg.String(), 100))
 	}
 	// onResponse stored only by Query
 	onResp := w.P.Field("", "transaction", "onResponse")
 	q := w.P.Func("(*Server).Query")
 	for _, ins := range w.FieldWrites(w.P.LibFuncs, onResp) {
-		rr.At(w, ins, "transaction.onResponse is set only by Query", within(ins.Parent(), q), "in "+shortFuncName(ins.Parent()))
+		rr.At(w, ins, "transaction.onResponse is set only by Query", w.withinUp(ins.Parent(), q), "in "+shortFuncName(ins.Parent()))
 	}
 	// unknown-key branch: from the Have=false edge to exit nothing but logging
 	for _, h := range w.CallsIn(pp, have, false) {
